@@ -1000,6 +1000,9 @@ func callBuiltin(caller *frame, callpos token.Pos, fn *ssa.Builtin, args []value
 			params := fn.Type().(*types.Signature).Params()
 			src = conv(caller, params.At(0).Type(), params.At(1).Type(), src)
 		}
+		if dst := args[0].([]value); len(dst) > 0 && len(src.([]value)) > 0 {
+			caller.i.m.storeHook(caller, &dst[0]) // a copy into a shared array is a write to it
+		}
 		return copy(args[0].([]value), src.([]value))
 
 	case "close": // close(chan T)
